@@ -77,6 +77,32 @@ class LazySSECost(BaseCost):
         raise NotImplementedError("LazySSECost has no fixed-parameter mode")
 
 
+class ScaledSSECost(BaseCost):
+    """Sum of squared deviations from the SEGMENT mean, divided by the fixed parameter (a known
+    variance) when one is given.  With a fixed parameter the cost is still NOT additive over rows (the
+    mean is estimated from the evaluated rows): anything that assumes 'fixed parameter => sum over
+    rows' shows here."""
+
+    def __init__(self, param=None):
+        super().__init__(param)
+
+    def _fit(self, X, y=None):
+        self.X_ = np.ascontiguousarray(as_2d_array(X), dtype=float)
+        return self
+
+    def _sse(self, starts, ends):
+        out = np.zeros((len(starts), self.X_.shape[1]))
+        for i, (s, e) in enumerate(zip(starts, ends)):
+            out[i] = ((self.X_[s:e] - self.X_[s:e].mean(axis=0)) ** 2).sum(axis=0)
+        return out
+
+    def _evaluate_optim_param(self, starts, ends):
+        return self._sse(starts, ends)
+
+    def _evaluate_fixed_param(self, starts, ends):
+        return self._sse(starts, ends) / float(self.param)
+
+
 class ModeCost(BaseCost):
     """Number of samples different from the segment's most frequent value.
 
